@@ -157,6 +157,9 @@ def register(R):
             Implies(And(ex_.len() > 0, rem.len() > 0), last(ex_).end == rem[0].start),
             Implies(And(ex_.len() > 0, rem.len() == 0), last(ex_).end == last(route).end),
             Implies(Or(route.len() == 0, route[0].start == last(route).end), And(ex_.len() == 0, rem.len() == 0)),
+            # ... and only then: a route that still leads somewhere is never reported as consumed (driven part followed by
+            # remaining part is the original route: same destination)
+            Implies(And(route.len() > 0, route[0].start != last(route).end), Or(ex_.len() > 0, rem.len() > 0)),
             t.traversal_distance_km >= 0, t.remaining_time_seconds >= 0)))
     s.ensures("junction", trav_post, ("C06",))
     s.requires("time", lambda a: a.duration_seconds >= 0)
